@@ -434,4 +434,18 @@ def equiv(a, b, budget=1500, want_groups=True):
             ra, rb = [m.span() for m in ca.finditer(t)], [m.span() for m in cb.finditer(t)]
         if ra != rb:
             return 'diff', {'text': t, 'a': ra, 'b': rb}
+    # contextual equivalence: two patterns that match the same spans on their own can still differ in the *order* in which alternative
+    # ends are tried (a lazy `a*?` and `(?:a+)??`), which shows as soon as something follows them.  A continuation that admits exactly
+    # two end positions reveals the relative priority of those two; all pairs over the short texts reveal the whole order.
+    short = [t for t in ts if len(t) <= 3]
+    for x, y in ((0, 1), (0, 2), (1, 2), (0, 3), (1, 3), (2, 3)):
+        tail = r'(?=(?:[\s\S]{%d}|[\s\S]{%d})\Z)' % (x, y)
+        try:
+            ka, kb = _compile('(?:%s)%s' % (a, tail), inctx), _compile('(?:%s)%s' % (b, tail), inctx)
+        except (re.error, RecursionError):
+            break
+        for t in short:
+            ra, rb = [m.span() for m in ka.finditer(t)], [m.span() for m in kb.finditer(t)]
+            if ra != rb:
+                return 'diff', {'text': t, 'continuation': tail, 'a': ra, 'b': rb}
     return 'texts', {'sigma': sigma, 'L': L, 'n': len(ts)}
